@@ -46,11 +46,29 @@ pub enum Cond {
     Or(Box<Cond>, Box<Cond>),
 }
 
+/// Assignment to the nullable column (no nested Option: JSON `null` must round-trip through the replay file).
+#[derive(Clone, Copy, Debug, Serialize, Deserialize, PartialEq, Eq)]
+pub enum SetB {
+    Keep,
+    Null,
+    To(i64),
+}
+
+impl SetB {
+    pub fn value(self) -> Option<Option<i64>> {
+        match self {
+            SetB::Keep => None,
+            SetB::Null => Some(None),
+            SetB::To(v) => Some(Some(v)),
+        }
+    }
+}
+
 /// Assignments of an UPDATE (at least one is set; an empty mask is read as `a := a_val`).
 #[derive(Clone, Debug, Serialize, Deserialize)]
 pub struct Sets {
     pub a: Option<i64>,
-    pub b: Option<Option<i64>>,
+    pub b: SetB,
     pub s: Option<u8>,
 }
 
@@ -132,7 +150,11 @@ pub fn cond() -> BoxedStrategy<Cond> {
 pub fn sets() -> impl Strategy<Value = Sets> {
     (1u8..8, 0..=A_MAX, prop_oneof![1 => Just(None), 4 => (0..=B_MAX).prop_map(Some)], 0u8..3).prop_map(|(m, a, b, s)| Sets {
         a: (m & 1 != 0).then_some(a),
-        b: (m & 2 != 0).then_some(b),
+        b: match (m & 2 != 0, b) {
+            (false, _) => SetB::Keep,
+            (true, None) => SetB::Null,
+            (true, Some(v)) => SetB::To(v),
+        },
         s: (m & 4 != 0).then_some(s),
     })
 }
@@ -211,10 +233,11 @@ pub fn exp_strategy() -> impl Strategy<Value = ExpCase> {
     (
         idx_cfg(),
         prop::collection::vec(vals(), 1..6),
-        (prop::bool::weighted(0.3), cond(), sets()),
-        (prop::bool::weighted(0.3), cond(), sets()),
+        // conditions lean towards `True` so that the two statements usually share rows
+        (prop::bool::weighted(0.3), prop_oneof![2 => Just(Cond::True), 3 => cond()], sets()),
+        (prop::bool::weighted(0.3), prop_oneof![2 => Just(Cond::True), 3 => cond()], sets()),
         prop::bool::weighted(0.25),
-        prop::bool::weighted(0.2),
+        prop::bool::weighted(0.15),
     )
         .prop_map(|(idx, seed, (t_delete, t_cond, t_sets), (u_delete, u_cond, u_sets), u_plain, u_other_table)| ExpCase {
             idx,
